@@ -76,6 +76,22 @@ class FakePW:
     def __repr__(self):
         return "FakePW(%d)" % self.idx
 
+    def restart(self, *args, results_pipe=None, timeout=None, **kwargs):
+        """What PersistentWorker.restart does as far as the pool can see: the old incarnation is stopped (whatever it still held is
+        lost), a new one with a new identity and a new result pipe takes its place."""
+        vos.check_sticky()
+        if self.alive:
+            self._dead(marker=False)
+        self.generation = getattr(self, "generation", 0) + 1
+        self.id = ("host", 1000 + self.idx + 100 * self.generation, 1000 + self.idx + 100 * self.generation)
+        self.alive = True
+        self.failing = False
+        self.lingering = None
+        self.inbox = []
+        self.counter = 0
+        self.conn = results_pipe.parent_end if results_pipe is not None else Conn(self.env, self)
+        self.conn.w = self
+
     # -- what the pool calls
     def is_alive(self):
         vos.check_sticky()
@@ -167,6 +183,10 @@ class Env:
         self.pool_calls = 0
         self.waits = 0
 
+    def make_pipe(self):
+        """Stands for pyworkers.utils.Pipe() in Pool.restart_workers: the parent end is one of our result pipes."""
+        return SimpleNamespace(parent_end=Conn(self, None), child_end=None)
+
     def by_conn(self, c):
         for w in self.workers:
             if w.conn is c:
@@ -222,3 +242,4 @@ class Env:
 def install(poolmod, env):
     poolmod.mp = SimpleNamespace(connection=SimpleNamespace(wait=env.wait))
     poolmod.time = SimpleNamespace(sleep=lambda s: None)
+    poolmod.Pipe = env.make_pipe
